@@ -89,7 +89,14 @@ func snapWeb(mr *rules.MatchingResult) string {
 func (en *engSet) answer(q Q) (snap string, objs []any) {
 	var sb strings.Builder
 	if q.Host {
-		res, ok := en.d.MatchRequest(mkDNSReq(q))
+		var res *urlfilter.DNSResult
+		var ok bool
+		if q.DNSType == "" && q.CName == "" && q.CIP == "" && len(q.Tags) == 0 {
+			// a question without record type and client data is asked through the short form
+			res, ok = en.d.Match(q.Hostname)
+		} else {
+			res, ok = en.d.MatchRequest(mkDNSReq(q))
+		}
 		sb.WriteString("DNS " + snapDNS(res, ok))
 		opt := rules.CosmeticOptionAll
 		if q.CosmeticOpt != 0 {
